@@ -125,12 +125,12 @@ func Run(s *Spec) *Result {
 					for _, op := range en {
 						in := s.Build(w, it.path)
 						in.Apply(op)
+						// the key is taken before the probes of Check run: probes are requests too, and if the code
+						// under test lets one of them change something, the state reached by the history itself must
+						// not be mistaken for (and merged with) the state after the probes
+						key := in.Key()
 						sig, what := in.Check()
 						np := append(append([]int(nil), it.path...), op)
-						var key string
-						if sig == "" {
-							key = in.Key()
-						}
 						in.Close()
 						mu.Lock()
 						res.Transitions++
